@@ -73,8 +73,26 @@ func vViaWire(info *AppInfo) *AppInfo {
 }
 
 // vAppMsg: the description as the agent's App message
-func vAppMsg(info *AppInfo) []byte {
+func vAppMsg(info *AppInfo) []byte { return vAppMsgRun(info, nil) }
+
+func vOr(s, d string) string {
+	if s == "" {
+		return d
+	}
+	return s
+}
+
+// vAppMsgRun: the same, as a query for the given run id
+func vAppMsgRun(info *AppInfo, run *AgentRunID) []byte {
 	buf := flatbuffers.NewBuilder(0)
+	var runOff flatbuffers.UOffsetT
+	if run != nil {
+		runOff = buf.CreateString(string(*run))
+	}
+	settingsJSON := []byte("{}")
+	if info.Settings != nil {
+		settingsJSON, _ = json.Marshal(info.Settings)
+	}
 	pol, _ := json.Marshal(info.SupportedSecurityPolicies.Policies)
 	if info.SupportedSecurityPolicies.Policies == nil {
 		pol = []byte("{}")
@@ -84,10 +102,10 @@ func vAppMsg(info *AppInfo) []byte {
 	lang := buf.CreateString(info.AgentLanguage)
 	version := buf.CreateString(info.AgentVersion)
 	coll := buf.CreateString(info.RedirectCollector)
-	settings := buf.CreateString("{}")
-	env := buf.CreateString("[]")
-	labels := buf.CreateString("[]")
-	metadata := buf.CreateString("{}")
+	settings := buf.CreateString(string(settingsJSON))
+	env := buf.CreateString(vOr(string(info.Environment), "[]"))
+	labels := buf.CreateString(vOr(string(info.Labels), "[]"))
+	metadata := buf.CreateString(vOr(string(info.Metadata), "{}"))
 	host := buf.CreateString(info.Hostname)
 	disp := buf.CreateString(info.HostDisplayName)
 	toh := buf.CreateString(info.TraceObserverHost)
@@ -113,8 +131,14 @@ func vAppMsg(info *AppInfo) []byte {
 	protocol.AppAddDockerId(buf, dock)
 	protocol.AppAddSecurityPolicyToken(buf, tok)
 	protocol.AppAddSupportedSecurityPolicies(buf, pols)
+	protocol.AppAddSpanEventsMaxSamplesStored(buf, uint64(info.AgentEventLimits.SpanEventConfig.Limit))
+	protocol.AppAddLogEventsMaxSamplesStored(buf, uint64(info.AgentEventLimits.LogEventConfig.Limit))
+	protocol.AppAddCustomEventsMaxSamplesStored(buf, uint64(info.AgentEventLimits.CustomEventConfig.Limit))
 	app := protocol.AppEnd(buf)
 	protocol.MessageStart(buf)
+	if run != nil {
+		protocol.MessageAddAgentRunId(buf, runOff)
+	}
 	protocol.MessageAddDataType(buf, protocol.MessageBodyApp)
 	protocol.MessageAddData(buf, app)
 	buf.Finish(protocol.MessageEnd(buf))
